@@ -7,6 +7,7 @@ from __future__ import annotations
 
 import copy
 import os
+import sys
 import shutil
 import tempfile
 
@@ -110,8 +111,23 @@ def _doc_append(x):
     return (_res(d.render()), _res(d2.render()))
 
 
+def _failing(thunk):
+    """an operation that fails half-way (an object in the same tree raises from tagify())"""
+    try:
+        thunk()
+    except RuntimeError as e:
+        return ("raised", str(e))
+    return ("no-error",)
+
+
+def _globals():
+    import htmltools
+    return (sys.displayhook, htmltools.html_dependency_render_mode)
+
+
 def _ops():
-    from htmltools import HTMLDocument
+    from htmltools import HTMLDocument, Tag, TagList
+    from ..spec import Boom
     return {
         "tagify": lambda x: snap(x.tagify()),
         "render": lambda x: _res(x.render()),
@@ -129,6 +145,9 @@ def _ops():
         "eq": lambda x: (x == x, x == copy.copy(x)),
         "doc.append": lambda x: _doc_append(x),
         "save_html": _save,
+        "render-beside-failing-object": lambda x: _failing(lambda: Tag("div", x, Boom()).render()),
+        "doc.render-beside-failing-object": lambda x: _failing(lambda: HTMLDocument(x, Tag("p", Boom())).render()),
+        "save_html-beside-failing-object": lambda x: _failing(lambda: _save(TagList(x, Boom()))),
     }
 
 
@@ -156,6 +175,15 @@ DEP_OPS = {
     "doc-render": lambda d: _res(__import__("htmltools").HTMLDocument(d).render()),
 }
 
+SUBS = [
+    ["ES", "div", True, [["id", "i"]], [T("a"), ["ES", "span", False, [], [T("b")]], D1]],
+    ["TLX", [T("a"), E("p", True, [T("p")]), D1]],
+    ["ECX", "div", True, [["class", "k"]], [T("a"), E("span", False, [T("s")]), D3]],
+    E("div", True, [["ES", "p", True, [], [["ECX", "i", False, [], [T("deep")]]]], T("t")]),
+    ["ES", "section", True, [], [X1, T("z")]],
+    ["TLX", [["ES", "b", False, [], [T("x")]], X2]],
+    ["ECX", "body", True, [], [["ES", "div", True, [], [D2]]]],
+]
 OPS_QUICK = ["tagify", "render", "str", "get_html_string", "get_dependencies", "copy",
              "doc.render", "doc(lang).render", "doc(class).render(noprefix)", "eq", "doc.append"]
 
@@ -184,6 +212,7 @@ def make_fn_seq(table_fn, builder, key):
         comparable = key != "doc" and '"ML"' not in __import__("json").dumps(spec)   # no == for documents / lock nodes
         if comparable and not ((x == fresh) and (fresh == x)):
             viols.append(("eq:identical-unequal", "two identically built objects compare unequal", {}))
+        g0 = _globals()
         for k, name in enumerate(seq):
             bk = (key, repr(spec), name)
             if bk not in _BASE:
@@ -192,6 +221,11 @@ def make_fn_seq(table_fn, builder, key):
                 _BASE[bk] = run_op(table, name, builder(spec))
             r = run_op(table, name, x)
             s1 = snap(x)
+            if _globals() != g0:
+                viols.append((f"global-state:{name}", f"{name} left sys.displayhook / html_dependency_render_mode changed",
+                              {"sequence": seq[:k + 1]}))
+                sys.displayhook, __import__("htmltools").html_dependency_render_mode = g0
+                break
             if s1 != s0:
                 viols.append((f"mutates:{name}", f"{name} changed its receiver/argument",
                               {"sequence": seq[:k + 1], "before": s0, "after": s1}))
@@ -291,6 +325,12 @@ def fn_independence(spec):
     if not has_x and sx != sy:
         viols.append(("tagify:not-structurally-equal", "tagify() changed the structure of a tree "
                       "needing no expansion", {"original": sx, "copy": sy}))
+    c = copy.copy(x)
+    if snap(c) != sx:
+        viols.append(("copy:not-structurally-equal", "copy.copy() result differs from the original (type, extra "
+                      "attributes of user subclasses, attributes or children)", {"original": sx, "copy": snap(c)}))
+    elif not has_ml and not (c == x and x == c):
+        viols.append(("copy:not-equal", "copy.copy() result is not == the original", {}))
     yy = y.tagify()
     if (not has_ml and not (yy == y)) or snap(yy) != sy:
         viols.append(("tagify:not-fixed-point", "tagify() of a tagified tree differs from it", {}))
@@ -472,6 +512,23 @@ def plan(tier):
              note="str == repr == _repr_html_ == render()['html']"),
         dict(kind="space", name="eq-variants", fn=fn_variants, space=F, execs=12,
              note="every single-point variant compares unequal; identical compare equal; other kinds unequal"),
+    ]
+    fail_ops = ["render-beside-failing-object", "doc.render-beside-failing-object", "save_html-beside-failing-object",
+                "render", "str", "doc.render", "tagify"]
+    out += [
+        dict(kind="space", name="user-subclasses-readonly-sequences", fn=fn_seq, execs=n,
+             space=Prod(Const(SUBS), Seq(Const(names), 1, n)),
+             note=f"{len(SUBS)} trees/lists built from user subclasses of Tag and TagList (extra instance attributes; a "
+                  "subclassed child list) x sequences of read-only operations"),
+        dict(kind="space", name="user-subclasses-independence", fn=fn_independence, space=Const(SUBS), execs=20,
+             note="copy.copy()/tagify() keep the subclass type and its attributes, result == original, independence"),
+        dict(kind="space", name="user-subclasses-views", fn=fn_views, space=Const(SUBS), execs=4,
+             note="str == repr == _repr_html_ == render()['html'] for subclass instances"),
+        dict(kind="space", name="operations-that-fail-half-way", fn=fn_seq, execs=n,
+             space=Prod(Const(CURATED + SUBS), Seq(Const(fail_ops), 1, n)),
+             note="sequences mixing successful operations with renders/saves that raise because another object in the "
+                  "same tree fails in tagify(): receivers unchanged, later results unchanged, sys.displayhook and the "
+                  "dependency render mode restored"),
     ]
     t1 = trees(Const([T("a"), H("<i>h</i>"), D1, D2]), KINDS[:3], 1, 1 if tier == "quick" else 2)
     out.append(dict(kind="space", name="eq-pairs", fn=fn_pair, space=Prod(t1, t1), execs=1,
